@@ -1626,7 +1626,7 @@ pub fn generate(property: &str, profile: Profile, seed: u64, run: u64) -> Trace 
     };
     let ptype = *rng.pick(&[PType::Installer, PType::Installer, PType::Patch, PType::Transform]);
     let big_script = profile == Profile::Script && rng.chance(200);
-    let (init, model) = if profile == Profile::Foreign || (profile == Profile::Corrupt && rng.chance(300)) || (profile == Profile::ReadOnly && rng.chance(300)) || big_script {
+    let (init, model) = if profile == Profile::Foreign || (profile == Profile::Corrupt && rng.chance(300)) || (profile == Profile::ReadOnly && rng.chance(300)) || (profile == Profile::Reject && rng.chance(250)) || big_script {
         let spec = gen_foreign_spec(&mut rng, big_script);
         cp_set = vec![if spec.codepage == 0 { 65001 } else { spec.codepage }];
         alphabet = if spec.codepage == 0 { Vec::new() } else { crate::cp::common_chars(&cp_set) };
@@ -1684,7 +1684,11 @@ pub fn generate(property: &str, profile: Profile, seed: u64, run: u64) -> Trace 
     match profile {
         Profile::Corrupt => {
             // close, damage the image, then a session driven by the old model
-            let n = 1 + g.rng.below(3);
+            let n = match g.rng.below(10) {
+                0..=6 => 1,
+                7..=8 => 2,
+                _ => 3,
+            };
             let mut edits = Vec::new();
             for _ in 0..n {
                 edits.push(Edit::Corrupt(gen_corruption(&mut g.rng)));
@@ -1761,7 +1765,7 @@ pub fn gen_corruption(rng: &mut Prng) -> CorruptSpec {
         75..=84 => CorruptSpec::PoolEntry(rng.next_u64() as u32, rng.below(5) as u8),
         85..=94 => CorruptSpec::PropSet(rng.below(16) as u8, rng.next_u64() as u32),
         95..=96 => CorruptSpec::AddEntry(rng.below(8) as u8),
-        97 => CorruptSpec::PoolGrow(*rng.pick(&[1u32, 70, 65_500, 70_000])),
+        97 => CorruptSpec::PoolGrow(*rng.pick(&[1u32, 70, 65_535, 70_000, 80_000])),
         _ => CorruptSpec::RootClsid,
     }
 }
